@@ -312,7 +312,8 @@ def softmax(ctx):
     for s in el:
         i = strip(s["init"])
         if i.get("k") == "mcall" and i["name"] == "exp":
-            arg = strip(i["recv"])
+            from ..hir import resolve as _resolve, let_table as _let_table
+            arg = _resolve(i["recv"], _let_table(lp["body"]))        # `let shifted = v - max; shifted.exp()`
             ok = arg.get("k") == "bin" and arg["op"] == "Sub" and e4.local_hid(arg["l"]) == vh and e4.local_hid(arg["r"]) == mh
             ctx.check("R07.5", "exp-argument", ok, "exp-argument-not-x-minus-max:" + short(pretty(arg), 40), c.loc(fn, i), "exp(v - max)",
                       "exponent is exp(%s); without subtracting the maximum exp overflows to inf for large inputs and inf/inf = NaN" % pretty(arg))
@@ -379,7 +380,8 @@ def softmax(ctx):
                 yh = th
     ctx.check("R07.5", "normalisation", ok, "outputs-not-exp-over-sum", c.loc(fn), "y_i = e_i / sum, in order")
     t = strip(b["tail"]) if b["tail"] is not None else None
-    okr = (t is not None and t.get("k") == "mcall" and t["callee"] == "tensor::Tensor::reshape" and pretty(strip(t["args"][0])) == "%s.shape.clone()" % fn["params"][1]["name"]
+    from ..hir import cpretty as _cpretty, let_table as _let_table2
+    okr = (t is not None and t.get("k") == "mcall" and t["callee"] == "tensor::Tensor::reshape" and _cpretty(strip(t["args"][0]), _let_table2(fn["body"])) == "%s.shape.clone()" % fn["params"][1]["name"]
            and strip(t["recv"]).get("k") == "call" and strip(t["recv"])["callee"] == "tensor::Tensor::single" and e4.local_hid(strip(t["recv"])["args"][0]) == yh)
     ctx.check("R07.5", "reshape-to-input-shape", okr, "result-not-reshaped-to-input-shape", c.loc(fn), "Tensor::single(y).reshape(input.shape)")
 
